@@ -195,7 +195,7 @@ func (e *Exec) strConst(s string) *Term {
 	name := fmt.Sprintf("str!%d", len(e.strs))
 	e.emit("(declare-const %s Int)", name)
 	e.emit("(assert (= (slen %s) %d))", name, len(s))
-	if len(s) <= 64 {
+	if len(s) <= 1024 {
 		for i := 0; i < len(s); i++ {
 			e.emit("(assert (= (sat %s %d) %d))", name, i, s[i])
 		}
